@@ -165,7 +165,8 @@ def check_remove_overlapping(ctx):
         idx = U(c.args[0])
         ok, detail = False, "no matrix update next to the pop"
         if len(local) >= 1:
-            v = local[0].value
+            # temporaries between the two deletions are resolved (row first, column second, or nested in one expression)
+            v = fv.expand(local[-1].value, local[-1], stop=(D, x, y, idx), allow_mutated=True)
             outer_ = parse(v)
             inner_ = parse(outer_[0]) if outer_ else None
             if outer_ and inner_ and U(inner_[0]) == D:
@@ -182,29 +183,63 @@ def check_pairwise(ctx):
     fv = view(m, fi)
     si = stmt_index(fv)
     site = fi.qualname
-    # ---- metric selection: exactly on `grid is None`
+    # ---- metric selection: exactly on `grid is None` — resolved by value: which callable measures the distance when no grid
+    # is given and which one when a grid is given (nested closure, module-level helper, lambda or functools.partial alike)
+    from ..astutil import contradicts, canon_tests
+
     tests = [s for s in fv.statements() if isinstance(s, ast.If) and "grid" in names_in(s.test)]
-    if len(tests) == 1:
+    fname = None
+    dist_calls = [c for c in fv.calls() if isinstance(c.func, ast.Name) and len(c.args) == 2 and all(isinstance(a_, ast.Attribute) and a_.attr == "position" for a_ in c.args)]
+    if len({c.func.id for c in dist_calls}) == 1:
+        fname = dist_calls[0].func.id
+    if len(tests) == 1 and fname is not None:
         t = tests[0]
         cp = compare_parts(t.test)
         pure = cp is not None and U(cp[0]) == "grid" and isinstance(cp[1], (ast.Is, ast.IsNot)) and isinstance(cp[2], ast.Constant) and cp[2].value is None
-        none_body, grid_body = (t.body, t.orelse) if pure and isinstance(cp[1], ast.Is) else (t.orelse, t.body)
-        eu = [g_ for g_ in m.all_functions() if g_.parent is fi and any(g_.node is s for s in none_body)]
-        ok_eu = False
-        fname = None
-        if len(eu) == 1:
-            rets = [s for s in ast.walk(eu[0].node) if isinstance(s, ast.Return)]
-            p_ = eu[0].params
-            fname = eu[0].name
-            ok_eu = len(rets) == 1 and len(p_) == 2 and U(rets[0].value) in (f"np.linalg.norm({p_[0]} - {p_[1]})", f"np.linalg.norm({p_[1]} - {p_[0]})")
-        ok_gr = any(isinstance(s, ast.Assign) and U(s.targets[0]) == fname and U(s.value) in ("functools.partial(grid.distance, coords='cartesian')", "partial(grid.distance, coords='cartesian')") for s in grid_body)
         if not pure:
             ctx.violate("METRIC", site, (fi, t),
                         f"metric selection `if {U(t.test)}`: the periodic metric grid.distance(…, coords='cartesian') must be used whenever a grid is supplied (any mix of periodic axes), the Euclidean norm only for grid None")
         else:
+            defs_ = []  # (guards, kind, payload)
+            for g_ in m.all_functions():
+                if g_.parent is fi and g_.name == fname and not isinstance(g_.node, ast.Lambda):
+                    defs_.append((si.effective_guards(g_.node), "func", g_))
+            for s_ in fv.statements():
+                if isinstance(s_, (ast.Assign, ast.AnnAssign)) and s_.value is not None and U(s_.targets[0] if isinstance(s_, ast.Assign) else s_.target) == fname:
+                    defs_.append((si.effective_guards(s_), "value", s_.value))
+
+            def _is_euclid(kind, payload):
+                node = None
+                if kind == "func":
+                    node = payload.node
+                elif isinstance(payload, ast.Lambda):
+                    node = payload
+                elif isinstance(payload, ast.Name):
+                    q = m.resolve(fv.mod, payload.id)
+                    if q and m.has_func(q):
+                        node = m.func(q).node
+                if node is None:
+                    return False
+                ps = [a_.arg for a_ in node.args.args]
+                body = node.body if isinstance(node, ast.Lambda) else None
+                if body is None:
+                    rets_ = [x for x in ast.walk(node) if isinstance(x, ast.Return) and x.value is not None]
+                    body = rets_[0].value if len(rets_) == 1 else None
+                return body is not None and len(ps) == 2 and U(body) in (f"np.linalg.norm({ps[0]} - {ps[1]})", f"np.linalg.norm({ps[1]} - {ps[0]})")
+
+            def _is_periodic(kind, payload):
+                return kind == "value" and U(payload) in ("functools.partial(grid.distance, coords='cartesian')", "partial(grid.distance, coords='cartesian')",
+                                                          "lambda p1, p2: grid.distance(p1, p2, coords='cartesian')")
+
+            none_defs = [d for d in defs_ if not contradicts(d[0], {("grid is None", True)})]
+            grid_defs = [d for d in defs_ if not contradicts(d[0], {("grid is None", False)})]
+            ok_eu = len(none_defs) == 1 and _is_euclid(none_defs[0][1], none_defs[0][2])
+            ok_gr = len(grid_defs) == 1 and _is_periodic(grid_defs[0][1], grid_defs[0][2])
             ctx.decide(ok_eu and ok_gr, "METRIC", site, (fi, t),
                        "Euclidean distance exactly when no grid is given; grid.distance(coords='cartesian') for every supplied grid",
                        "the two metrics are not np.linalg.norm(p1 - p2) (no grid) and functools.partial(grid.distance, coords='cartesian') (grid given)")
+    elif len(tests) == 1:
+        ctx.undecided("METRIC", site, (fi, tests[0]), "the call that measures the distance between two positions was not found")
     else:
         ctx.violate("METRIC", site, fi, f"{len(tests)} tests on the grid: expected the single selection `grid is None` → Euclidean, else grid.distance")
         fname = None
@@ -224,6 +259,10 @@ def check_pairwise(ctx):
         outer_l, inner_l = (loops[0], loops[1]) if any(x is loops[1] for x in ast.walk(loops[0])) else (loops[1], loops[0])
         iv, jv = U(outer_l.target), U(inner_l.target)
         okl = U(fv.expand(outer_l.iter, outer_l)) == "range(len(self))" and U(fv.expand(inner_l.iter, inner_l)).replace(" ", "") in (f"range({iv}+1,len(self))", f"range(1+{iv},len(self))")
+    elif len(loops) == 1 and isinstance(loops[0].target, ast.Tuple) and len(loops[0].target.elts) == 2:
+        # for i, j in itertools.combinations(range(n), 2): all pairs i < j in the same order
+        iv, jv = (U(e) for e in loops[0].target.elts)
+        okl = U(fv.expand(loops[0].iter, loops[0])).replace(" ", "") in ("itertools.combinations(range(len(self)),2)", "combinations(range(len(self)),2)")
     idx = {tuple(U(e) for e in s.targets[0].slice.elts) for s in stores}
     vals = {U(fv.expand(s.value, s, allow_mutated=True, stop=(iv or "", jv or ""))) for s in stores}
     oksym = iv is not None and idx == {(iv, jv), (jv, iv)} and len(vals) == 1
@@ -321,28 +360,51 @@ def check_from_random(ctx):
     ok_b = len(bdefs) == 1 and U(bdefs[0].value) == f"np.atleast_2d({fi.params[2] if len(fi.params) > 2 else 'grid_or_bounds'})"
     ctx.decide(ok_b, "RANDOM", site + ":bounds", (fi, bdefs[0]) if bdefs else fi, "bounds are taken as given: one (lower, upper) row per axis",
                f"the bounds array is `{U(bdefs[0].value)[:70] if bdefs else '?'}`, not the given (lower, upper) pairs: re-ordering or transforming it (e.g. sorting across axes) moves droplets outside the requested region")
-    ok_pos = len(inner) == 2 and len({g.name for g in inner}) == 1 and seen == {"grid_or_bounds.get_random_point(rng=rng)", f"rng.uniform({b}[:, 0], {b}[:, 1])"}
-    ctx.decide(ok_pos, "RANDOM", site + ":position", fi, "positions: grid.get_random_point(rng) or uniform(lower bounds, upper bounds)",
-               f"random positions are drawn as {sorted(seen)}; they must be uniform between the lower (column 0) and upper (column 1) bounds / grid.get_random_point")
-    # every droplet: droplet_class(<position>, rng.uniform(r0, r1)) with (r0, r1) = radius or r0 = r1 = float(radius)
+    # every droplet: droplet_class(<position>, rng.uniform(r0, r1)); the position source is resolved by value
+    from ..astutil import terminal_values
+
     cons = [c for c in fv.calls(nested=True) if U(c.func) == "droplet_class" and len(c.args) == 2]
+    pos_fn = None
+    if len(cons) == 1 and fv.node_of(cons[0]) is not None:
+        pe = fv.expand(cons[0].args[0], cons[0])
+        if isinstance(pe, ast.Call) and isinstance(pe.func, ast.Name) and not pe.args and not pe.keywords:
+            pos_fn = pe.func.id
+    seen = set()
+    if pos_fn is not None:
+        for g in inner:
+            if g.name == pos_fn and not isinstance(g.node, ast.Lambda):
+                gv_ = view(m, g)
+                rets = [s for s in ast.walk(g.node) if isinstance(s, ast.Return) and s.value is not None]
+                for r_ in rets:
+                    ex_ = gv_.expand(r_.value, r_)
+                    from ..astutil import resolve_closure_aliases
+
+                    seen.add(U(_resolve_outer_plain(m, fv, g, ex_)))
+        for s_ in fv.statements():
+            if isinstance(s_, (ast.Assign, ast.AnnAssign)) and s_.value is not None and U(s_.targets[0] if isinstance(s_, ast.Assign) else s_.target) == pos_fn:
+                v_ = s_.value
+                if isinstance(v_, ast.Call) and U(v_.func) in ("functools.partial", "partial") and v_.args:
+                    kw_ = ", ".join(f"{k.arg}={U(k.value)}" for k in v_.keywords)
+                    seen.add(f"{U(v_.args[0])}({', '.join([U(a_) for a_ in v_.args[1:]] + ([kw_] if kw_ else []))})")
+                elif isinstance(v_, ast.Lambda) and not v_.args.args:
+                    seen.add(U(v_.body))
+    gp_ = fi.params[2] if len(fi.params) > 2 else "grid_or_bounds"
+    ok_pos = seen == {f"{gp_}.get_random_point(rng=rng)", f"rng.uniform({b}[:, 0], {b}[:, 1])"}
+    if pos_fn is None:
+        ctx.undecided("RANDOM", site + ":position", fi, "the callable that draws a position was not found")
+    else:
+        ctx.decide(ok_pos, "RANDOM", site + ":position", fi, "positions: grid.get_random_point(rng) or uniform(lower bounds, upper bounds)",
+                   f"random positions are drawn as {sorted(seen)}; they must be uniform between the lower (column 0) and upper (column 1) bounds / grid.get_random_point")
     okr = False
-    if len(cons) == 1 and inner:
+    if len(cons) == 1 and pos_fn is not None:
         c = cons[0]
-        pos = fv.expand(c.args[0], c) if fv.node_of(c) is not None else c.args[0]
-        rad = fv.expand(c.args[1], c) if fv.node_of(c) is not None else c.args[1]
-        okr = U(pos) == f"{inner[0].name}()" and isinstance(rad, ast.Call) and U(rad.func) == "rng.uniform" and len(rad.args) == 2
+        rad = fv.expand(c.args[1], c)
+        okr = isinstance(rad, ast.Call) and U(rad.func) == "rng.uniform" and len(rad.args) == 2 and all(isinstance(a_, ast.Name) for a_ in rad.args)
         if okr:
-            lo, hi = (U(a) for a in rad.args)
-            defs = {}
-            for s in ast.walk(fi.node):
-                if isinstance(s, ast.Assign) and isinstance(s.targets[0], ast.Name) and s.targets[0].id in (lo, hi):
-                    defs.setdefault(s.targets[0].id, set()).add(U(s.value))
-                elif isinstance(s, ast.Assign) and isinstance(s.targets[0], ast.Tuple):
-                    for k_, e in enumerate(s.targets[0].elts):
-                        if isinstance(e, ast.Name) and e.id in (lo, hi):
-                            defs.setdefault(e.id, set()).add(f"{U(s.value)}[{k_}]")
-            okr = defs.get(lo) == {"radius[0]", "float(radius)"} and defs.get(hi) == {"radius[1]", "float(radius)"}
+            par_r = "radius"
+            lo_v = terminal_values(fv, rad.args[0].id, c, stop=(par_r,))
+            hi_v = terminal_values(fv, rad.args[1].id, c, stop=(par_r,))
+            okr = lo_v == {f"{par_r}[0]", f"float({par_r})"} and hi_v == {f"{par_r}[1]", f"float({par_r})"}
         # number of droplets
         lpq = stmt_index(fv).enclosing(c, (ast.For,))
         gen = [n for n in ast.walk(fi.node) if isinstance(n, (ast.ListComp, ast.GeneratorExp)) and any(z is c for z in ast.walk(n))]
@@ -350,6 +412,24 @@ def check_from_random(ctx):
         okr = okr and cnt == "range(num)"
     ctx.decide(okr, "RANDOM", site + ":radius", (fi, cons[0]) if cons else fi, "num droplets, radii uniform in [r0, r1] (r0 = r1 for a single number)",
                "random droplets are not `num` × droplet_class(get_position(), rng.uniform(r0, r1)) with (r0, r1) the requested radius range")
+
+
+def _resolve_outer_plain(model, pv, closure_fi, expr):
+    """names a nested function reads from its enclosing function and that have there one plain definition are substituted"""
+    import copy
+
+    own = {n.id for n in ast.walk(closure_fi.node) if isinstance(n, ast.Name) and isinstance(n.ctx, ast.Store)} | set(closure_fi.all_params)
+    at = pv.node_of(closure_fi.node)
+
+    class R(ast.NodeTransformer):
+        def visit_Name(self, n):
+            if isinstance(n.ctx, ast.Load) and n.id not in own and at is not None and n.id not in pv.mutated:
+                r = pv.single_def_value(n.id, at)
+                if r is not None and isinstance(r[0], (ast.Subscript, ast.Attribute)):
+                    return ast.copy_location(copy.deepcopy(r[0]), n)
+            return n
+
+    return R().visit(copy.deepcopy(expr))
 
 
 # ----------------------------------------------------------------------------- helpers
@@ -836,14 +916,25 @@ def check_copy_total(ctx, rule="COPYALL"):
                        f"`{U(bad[0]) if bad else ''}` filters the members of a frame while it is stored")
 
 
-def _member_attr_collection(v):
-    """(attribute, filter texts, member var) when ``v`` is `[m.attr for m in self if …]` (list/generator/np.array of it)"""
+def _member_attr_collection(v, fv=None, at=None):
+    """(attribute, filter texts, member var) when ``v`` is `[m.attr for m in self if …]` (list/generator/np.array of it), also
+    when the members are first selected into a sub-list of self (`selected = [m for m in self if …]`) that is then iterated"""
     if isinstance(v, ast.Call) and (dotted(v.func) or "").split(".")[-1] in ("array", "asarray", "list", "tuple", "fromiter") and v.args:
         v = v.args[0]
-    if isinstance(v, (ast.ListComp, ast.GeneratorExp)) and len(v.generators) == 1 and U(v.generators[0].iter) == "self" and isinstance(v.generators[0].target, ast.Name):
-        mv = v.generators[0].target.id
-        if isinstance(v.elt, ast.Attribute) and isinstance(v.elt.value, ast.Name) and v.elt.value.id == mv:
-            return v.elt.attr, sorted(U(t) for t in v.generators[0].ifs), mv
+    if isinstance(v, (ast.ListComp, ast.GeneratorExp)) and len(v.generators) == 1 and isinstance(v.generators[0].target, ast.Name):
+        g = v.generators[0]
+        mv = g.target.id
+        pre = []
+        src_ok = U(g.iter) == "self"
+        if not src_ok and fv is not None and isinstance(g.iter, ast.Name) and at is not None:
+            from ..astutil import filtered_collection
+
+            fc = filtered_collection(fv, g.iter.id, at)
+            if fc is not None and fc[0] == "self":
+                src_ok = True
+                pre = [fc[1].replace("_.", mv + ".").replace("_", mv) if False else fc[1].replace("_", mv)]
+        if src_ok and isinstance(v.elt, ast.Attribute) and isinstance(v.elt.value, ast.Name) and v.elt.value.id == mv:
+            return v.elt.attr, sorted(pre + [U(t) for t in g.ifs]), mv
     return None
 
 
@@ -855,12 +946,19 @@ def check_statistics(ctx, rule="STAT"):
     fi = m.func(f"{EM}.Emulsion.get_size_statistics")
     fv = view(m, fi)
     site = fi.qualname
-    rets = [n for n in fv.return_nodes() if isinstance(n.stmt.value, ast.Dict) and any(isinstance(k, ast.Constant) and k.value == "volume_mean" and isinstance(v_, ast.Call) for k, v_ in zip(n.stmt.value.keys, n.stmt.value.values))]
+    from ..astutil import dict_items, filtered_collection
+
+    rets = []
+    for n in fv.return_nodes():
+        if n.stmt.value is None:
+            continue
+        items = dict_items(fv, n.stmt.value, n.stmt)
+        if items and isinstance(items.get("volume_mean"), ast.Call):
+            rets.append((n, items))
     if len(rets) != 1:
         ctx.undecided(rule, site, fi, "result dictionary with 'volume_mean' not found")
     else:
-        rn = rets[0]
-        d = {k.value: v for k, v in zip(rn.stmt.value.keys, rn.stmt.value.values) if isinstance(k, ast.Constant)}
+        rn, d = rets[0]
         want = {"radius_mean": ("radius", "mean"), "radius_std": ("radius", "std"), "volume_mean": ("volume", "mean"), "volume_std": ("volume", "std")}
         filt_by_attr = {}
         for key, (attr, red) in want.items():
@@ -890,7 +988,7 @@ def check_statistics(ctx, rule="STAT"):
                 if len(comps) == 1:
                     defs = [(rn, comps[0])]
             for dn, val in defs:
-                r = _member_attr_collection(val) if val is not None else None
+                r = _member_attr_collection(val, fv, dn.stmt if getattr(dn, 'stmt', None) is not None else rn.stmt) if val is not None else None
                 if r is None:
                     # a filtered copy of a recognised collection (x = x[x > 0]) or anything else that is not the members' own property
                     bad = (dn.stmt if getattr(dn, "stmt", None) is not None else rn.stmt, "is not a collection of the members' own `." + attr + "`")
